@@ -113,14 +113,14 @@ func Run(c *core.Ctx) {
 		e.noDeviations = true
 	}
 	t0 := time.Now()
-	bases := RunMapOrder(c, e, designs, full, pairs)
+	bases, orderDependent := RunMapOrder(c, e, designs, full, pairs)
 	c.Note("map_order_wall_s", time.Since(t0).Seconds())
 	t0 = time.Now()
 	for _, b := range bases[:min(3, len(bases))] {
 		c.Sample(map[string]any{"exploration": "map-order", "design": b.d.Name, "files": len(b.run.Tree), "sites_reached": len(b.run.Report)})
 	}
 	if only == "" || only == "repetition" {
-		RunRepetition(c, e, bases, fresh)
+		RunRepetition(c, e, bases, fresh, orderDependent)
 	}
 	c.Note("repetition_wall_s", time.Since(t0).Seconds())
 	<-done
@@ -172,7 +172,7 @@ func Replay(c *core.Ctx, path string) {
 			c.HarnessError("replay: baseline of %s not generated", rc.Design.Name)
 			return
 		}
-		RunRepetition(c, e, bases, 12)
+		RunRepetition(c, e, bases, 12, nil)
 		fmt.Printf("replay repetition design=%s violations=%d\n", rc.Design.Name, c.ViolationCount())
 	case "cli":
 		var cc CLICase
